@@ -11,9 +11,15 @@ LINE
    "s": null | ["attr", kind, name, normalised type, value] | ["dir", name, EVAL|null, printed text] | ["marker"],
    "refs": [identifier...], "deps": [definition index...], "offs": bool, "fault": null|"syn"|"pre"|"mid"|"emit"|"commit",
    "bad": null | [category, "stmt"|"commit"|"final"],   (oracle only: this statement is an injected fault)
-   "c": null | comment text after the '#', "lead": blanks before the comment / of a blank-only line}
+   "c": null | comment text after the '#', "lead": blanks before the comment / of a blank-only line,
+   "nl": number of RAW LINE BREAKS inside the string literals of the statement (a line feed character in the tokens; the renderer turns each
+         into a line break of the file's newline convention), i.e. the statement occupies nl+1 physical lines}
+   a definition may carry "unload": KIND - its file cannot be loaded as text at all (bytes that are not UTF-8: a Latin-1 letter, a lone
+   continuation byte, a truncated sequence, an overlong form, an encoded surrogate, UTF-16 with BOM; or a directory under the definition's file name); its lines are what the file would have held
 DECO
-  {"seed": int, "ws": "min"|"wild", "eol": "lf"|"crlf"|"mixed", "final_nl": [bool per def], "route": "file"|"raw"}
+  {"seed": int, "ws": "min"|"wild", "eol": "lf"|"crlf"|"mixed"|"cr"|"mixed3", "final_nl": [bool per def], "route": "file"|"raw"}
+  eol "cr" = bare CR (classic Mac), "mixed3" = LF / CR LF / CR at random; both only with route "file" (the library reads files in
+  universal-newlines mode and so accepts them; with route "raw" the grammar itself sees the characters and knows only LF and CR LF)
 
 Outcome
   {"res": "ok", "types": [[def index, COMPOSITE]...], "prints": [[def index, line, text]...]}
@@ -24,9 +30,11 @@ Oracles (independent of the Lean model and of the library's algorithm):
   C03  line-based reference of what the abstract definition must yield (every attribute statement once, in source
        order, with its forward-scanned doc comment); two renderings of one definition give equal models;
        canonical re-rendering (`str(attribute)`) read again gives an equal model.
-  C17  the reported path is the file that holds an injected fault and a reported line is that statement's line;
-       every delivered @print corresponds to a @print statement at that path and line, none is delivered twice,
-       and on success none is missing.
+  C17  the reported path is the file that holds an injected fault and a reported line is that statement's line
+       (= 1 + the number of line terminators of the file in front of the statement, whatever the convention and
+       wherever they stand - also inside string literals of earlier statements); a file that cannot be loaded at all is
+       itself the reported path, however it was reached; every delivered @print corresponds to a @print statement at
+       that path and line, none is delivered twice, and on success none is missing.
 """
 from __future__ import annotations
 
@@ -52,11 +60,40 @@ def _blank_run(rng: random.Random, ws: str, required: bool) -> str:
     return "".join(rng.choice(BLANKS) for _ in range(n))
 
 
-def render_line(l: dict, rng: random.Random, ws: str) -> str:
+EOLS = {"lf": ["\n"], "crlf": ["\r\n"], "cr": ["\r"], "mixed": ["\n", "\r\n"], "mixed3": ["\n", "\r\n", "\r"]}
+
+
+def eol_style(deco: dict) -> str:
+    st = deco["eol"]
+    if deco.get("route") == "raw":  # the grammar itself knows only \r?\n
+        st = {"cr": "crlf", "mixed3": "mixed"}.get(st, st)
+    return st
+
+
+def pick_eol(rng: random.Random, style: str, directly_after_cr: bool) -> str:
+    opts = EOLS[style]
+    if len(opts) == 1:
+        return opts[0]
+    e = rng.choice(opts)
+    if directly_after_cr and e == "\n":
+        e = "\r\n"  # CR directly followed by LF would be ONE line terminator, not two
+    return e
+
+
+def render_line(l: dict, rng: random.Random, ws: str, style: str = "lf", brks: typing.Optional[list] = None) -> str:
     out = ""
     toks = l.get("toks")
     if toks:
         for i, (tok, sep) in enumerate(toks):
+            if l.get("nl") and "\n" in tok:
+                # raw line breaks inside a string literal: written in the newline convention of the file
+                parts = tok.split("\n")
+                tok = parts[0]
+                for part in parts[1:]:
+                    b = pick_eol(rng, style, tok.endswith("\r"))
+                    if brks is not None:
+                        brks.append(b)
+                    tok += b + part
             out += tok
             if i + 1 < len(toks):
                 if sep == "r":
@@ -81,21 +118,17 @@ def line_is_empty(l: dict) -> bool:
 def render_def(d: dict, deco: dict, idx: int) -> typing.Tuple[str, typing.List[dict]]:
     """The text of one definition and the abstract lines the model gets (one per physical line)."""
     rng = random.Random("%s/%d" % (deco["seed"], idx))
-    eol_style = deco["eol"]
-    texts = [render_line(l, rng, deco["ws"]) for l in d["lines"]]
+    style = eol_style(deco)
+    inner: typing.List[list] = [[] for _ in d["lines"]]
+    texts = [render_line(l, rng, deco["ws"], style, inner[i]) for i, l in enumerate(d["lines"])]
     final_nl = bool(deco["final_nl"][idx % len(deco["final_nl"])]) if deco["final_nl"] else False
     n_eols = len(texts) - 1 + (1 if final_nl else 0)
     if not texts:
         texts = [""]
         n_eols = 1 if final_nl else 0
-    eols = []
-    for _ in range(n_eols):
-        if eol_style == "lf":
-            eols.append("\n")
-        elif eol_style == "crlf":
-            eols.append("\r\n")
-        else:
-            eols.append(rng.choice(["\n", "\r\n"]))
+    eols: typing.List[str] = []
+    for i in range(n_eols):
+        eols.append(pick_eol(rng, style, bool(eols) and eols[-1] == "\r" and texts[i] == ""))
     text = ""
     mlines = []
     src = d["lines"] if d["lines"] else [{}]
@@ -103,11 +136,28 @@ def render_def(d: dict, deco: dict, idx: int) -> typing.Tuple[str, typing.List[d
         e = eols[i] if i < len(eols) else ""
         text += t + e
         l = src[i]
-        mlines.append({"s": l.get("s"), "refs": l.get("refs") or [], "deps": l.get("deps") or [], "offs": bool(l.get("offs")),
+        st = l.get("s")
+        if st and l.get("nl") and st[0] == "dir" and st[1] == "print" and d["lines"]:
+            st = st[:3] + [printed_literal(st[3], inner[i], deco)]
+        mlines.append({"s": st, "refs": l.get("refs") or [], "deps": l.get("deps") or [], "offs": bool(l.get("offs")),
                        "fault": l.get("fault"), "c": l.get("c"), "e": len(t) == 0, "crlf": e == "\r\n", "inner": int(l.get("nl") or 0)})
     if final_nl:
         mlines.append({"s": None, "refs": [], "deps": [], "offs": False, "fault": None, "c": None, "e": True, "crlf": False, "inner": 0})
     return text, mlines
+
+
+def printed_literal(canonical: str, brks: typing.List[str], deco: dict) -> str:
+    """The text a @print of a string literal with raw line breaks delivers (the repr of the string): read in universal-newlines
+    mode (route "file") every line break of the file is a line feed; read raw, the characters are the ones of the file."""
+    if deco.get("route") != "raw":
+        return canonical
+    parts = canonical.split("\\n")
+    if len(parts) != len(brks) + 1:
+        return canonical
+    out = parts[0]
+    for b, part in zip(brks, parts[1:]):
+        out += b.replace("\r", "\\r").replace("\n", "\\n") + part
+    return out
 
 
 def def_relpath(d: dict) -> str:
@@ -193,6 +243,8 @@ def strip_docs(comp: dict) -> dict:
                         for s in comp["schemas"]]}
 
 
+UNLOADABLE = "unloadable-file"
+
 PHYSICAL = [True]  # line numbers the oracle uses: physical lines of the text (a raw line break inside a string literal counts)
 
 
@@ -207,6 +259,9 @@ def faults_of(v: dict) -> typing.List[tuple]:
     """Acceptable (file, line) pairs of the injected faults: [(def, line|None, class, category)]."""
     out = []
     for di, d in enumerate(v["defs"]):
+        if d.get("unload"):
+            out.append((di, None, "final", UNLOADABLE))  # the file cannot be loaded: none of its statements is ever seen
+            continue
         if d.get("dfault"):
             out.append((di, None, "final", d["dfault"]))
         for i, l in enumerate(d["lines"]):
@@ -257,10 +312,18 @@ def reachable(v: dict, root: int) -> typing.Set[int]:
 def prints_of(v: dict) -> typing.Dict[tuple, str]:
     out = {}
     for di, d in enumerate(v["defs"]):
+        if d.get("unload"):
+            continue
+        rendered = None
         for i, l in enumerate(d["lines"]):
             s = l.get("s")
             if s and s[0] == "dir" and s[1] == "print":
-                out[(di, lineno(d, i))] = s[3]
+                txt = s[3]
+                if l.get("nl"):
+                    # the characters of a raw line break inside the literal are those of this rendering
+                    rendered = rendered or render_def(d, v["deco"], di)[1]
+                    txt = rendered[i]["s"][3]
+                out[(di, lineno(d, i))] = txt
     return out
 
 
@@ -307,14 +370,28 @@ def oracle_c17_numbered(v: dict, impl: dict) -> typing.Optional[str]:
     else:
         reach = set(range(len(v["defs"])))
     res = impl.get("res")
-    if res not in ("ok", "invalid"):
+    unl = [x for x in faults if x[3] == UNLOADABLE]
+    if unl and len(unl) == len(faults) and str(res).startswith("foreign:") and not str(res).startswith("foreign:harness"):
+        return "unloadable-no-path: %s cannot be loaded; reading failed with %s, which names no file at all" % (sorted({_fname(v, x[0]) for x in unl}), res[8:])
+    if res == "internal" and "file" not in impl:
+        return None
+    if res not in ("ok", "invalid", "internal"):
         return None  # crashes are C13's business; the correspondence still reports the difference
-    if res == "invalid" and faults:
+    # the exception CLASS is C13's business; an error that names a file (and a line) is judged on what it names
+    if res in ("invalid", "internal") and faults:
         f, ln = impl.get("file"), impl.get("line")
         here = [x for x in faults if x[0] == f]
         if not here:
+            if unl and len(unl) == len(faults):
+                for di, d in enumerate(v["defs"]):
+                    for i, l in enumerate(d["lines"]):
+                        if di == f and any(u[0] in (l.get("deps") or []) for u in unl) and ln in (None, lineno(d, i)):
+                            return "unloadable-dependency-path: %s cannot be loaded, the error names the referring file %s%s" % (
+                                sorted({_fname(v, x[0]) for x in unl}), _fname(v, f), "" if ln is None else " (line %d, the reference)" % ln)
             return "wrong-path: error attributed to %s, the fault is in %s" % (_fname(v, f), sorted({_fname(v, x[0]) for x in faults}))
         okl = {x[1] for x in here} | ({None} if any(x[2] == "final" for x in here) else set())
+        if any(x[3] == UNLOADABLE for x in here):
+            ln = None  # whether a file that cannot be loaded is reported with a line (of the undecodable byte, say) is not judged
         if ln is not None and ln not in okl:
             for x in here:
                 if x[2] == "commit" and x[1] is not None and ln == flush_line(v, f, x[1]):
@@ -413,9 +490,13 @@ def read_variant(pydsdl, v: dict, want_types: bool = False):
             text, _ = render_def(d, v["deco"], i)
             p = tmp / def_relpath(d)
             p.parent.mkdir(parents=True, exist_ok=True)
-            with open(p, "w", newline="", encoding="utf8") as f:
-                f.write(text)
+            if d.get("unload"):
+                write_unloadable(p, d["unload"], text, "%s/unload/%d" % (v["deco"]["seed"], i), tmp / ("elsewhere%d" % i))
+            else:
+                with open(p, "w", newline="", encoding="utf8") as f:
+                    f.write(text)
             by_path[str(p.resolve())] = i
+            by_path[os.path.abspath(str(p))] = i
         (tmp / "ns").mkdir(exist_ok=True)
 
         def idx_of(path) -> int:
@@ -457,11 +538,36 @@ def read_variant(pydsdl, v: dict, want_types: bool = False):
         return {"res": "invalid", "file": idx_of(ex.path) if ex.path else None, "line": ex.line, "prints": prints,
                 "soft_cls": type(ex).__name__, "soft_msg": str(ex.text)[:120]}, None
     except pydsdl.InternalError as ex:
-        return {"res": "internal", "prints": prints, "soft_msg": str(ex)[:200]}, None
+        out = {"res": "internal", "prints": prints, "soft_msg": str(ex)[:200]}
+        if getattr(ex, "path", None):
+            out.update({"file": idx_of(ex.path), "line": getattr(ex, "line", None)})
+        return out, None
     except Exception as ex:  # pylint: disable=broad-except
         return {"res": "foreign:" + type(ex).__name__, "prints": prints, "soft_msg": str(ex)[:200]}, None
     finally:
         shutil.rmtree(tmp, ignore_errors=True)
+
+
+UNLOAD_KINDS = ["latin1", "continuation", "truncated", "overlong", "surrogate", "utf16", "dir"]  # "symdir": see KEPT_OUT_UNLOADABLE
+BAD_BYTES = {"latin1": "caf\u00e9 \u00b0C".encode("latin-1"), "continuation": b"\x80", "overlong": b"\xc0\xaf", "surrogate": b"\xed\xa0\x80"}
+
+
+def write_unloadable(p: Path, kind: str, text: str, seed: str, elsewhere: Path) -> None:
+    """Put something under the definition's file name that cannot be loaded as UTF-8 text."""
+    rng = random.Random(seed)
+    data = text.encode("utf8")
+    if kind == "dir":
+        p.mkdir()
+    elif kind == "symdir":
+        elsewhere.mkdir(parents=True, exist_ok=True)
+        p.symlink_to(elsewhere, target_is_directory=True)
+    elif kind == "utf16":
+        p.write_bytes((text or "\n").encode("utf-16"))  # starts with the byte order mark FF FE / FE FF
+    elif kind == "truncated":
+        p.write_bytes(data + rng.choice([b"# \xe2\x82", b"\xc3", b"#\xf0\x9f\x98"]))  # a multi-byte sequence cut off by the end of the file
+    else:
+        at = rng.choice([0, len(data), rng.randint(0, len(data))])
+        p.write_bytes(data[:at] + (b"#" if rng.random() < 0.5 else b"") + BAD_BYTES[kind] + data[at:])
 
 
 def canonical_check(pydsdl, v: dict, types: dict) -> typing.Optional[str]:
@@ -656,6 +762,11 @@ ASSERT_EXPRS = [T("true"), T("1", "o", "+", "o", "1", "o", "==", "o", "2"), T("!
                 T("{", "o", "1", "o", "}", "o", "==", "o", "{", "o", "1", "o", "}"), T("'a'", "o", "!=", "o", "'b'")]
 
 
+# string literals with raw line breaks: (token with a line feed per break, what @print shows when every break is a line feed, breaks)
+ML_LITERALS = [("'a\nb'", "'a\\nb'", 1), ("'a\nb'", "'a\\nb'", 1), ('"x\ny\nz"', "'x\\ny\\nz'", 2), ("'\n'", "'\\n'", 1), ("'p\n\nq'", "'p\\n\\nq'", 2),
+               ("'first\nsecond\nthird\n'", "'first\\nsecond\\nthird\\n'", 3), ('" \n\t# no comment\n"', "' \\n\\t# no comment\\n'", 2)]
+
+
 def gen_schema(rng, ctx, deps_to_use: list, union: bool, deprecated_here: bool) -> typing.Tuple[list, int]:
     """Statement lines of one schema (no comments yet) and a bound of its size in bits."""
     ctx["consts"] = {}
@@ -665,6 +776,8 @@ def gen_schema(rng, ctx, deps_to_use: list, union: bool, deprecated_here: bool) 
     kinds = ["field"] * nf + ["const"] * rng.choice([0, 0, 1, 2, 3]) + ["print"] * rng.choice([0, 0, 1, 2]) + ["assert"] * rng.choice([0, 0, 1])
     if not union:
         kinds += ["pad"] * rng.choice([0, 0, 1, 2])
+    if ctx.get("multiline"):
+        kinds += ["mlassert"] * rng.choice([0, 0, 1]) + ["mlconst"] * rng.choice([0, 0, 1])
     rng.shuffle(kinds)
     pending_deps = list(deps_to_use)
     fields_left = nf
@@ -696,10 +809,11 @@ def gen_schema(rng, ctx, deps_to_use: list, union: bool, deprecated_here: bool) 
         elif k == "print":
             r = rng.random()
             if ctx.get("multiline") and rng.random() < 0.5:
-                if rng.random() < 0.5:
-                    # a string literal may contain a raw line break (the grammar admits it): one statement on two physical lines
-                    ln = mk_line(T("@print", "r", "'a\nb'"), ["dir", "print", ["o"], "'a\\nb'"])
-                    ln["nl"] = 1
+                if rng.random() < 0.6:
+                    # a string literal may contain raw line breaks (the grammar admits it): one statement on several physical lines
+                    lit, shown, nl = rng.choice(ML_LITERALS)
+                    ln = mk_line(T("@print", "r", lit), ["dir", "print", ["o"], shown])
+                    ln["nl"] = nl
                 else:
                     # ... or an ESCAPED line feed, which is not a line break of the text
                     esc = rng.choice(["'a\\nb'", "'\\n\\n'", '"x\\u000ay"'])
@@ -714,6 +828,18 @@ def gen_schema(rng, ctx, deps_to_use: list, union: bool, deprecated_here: bool) 
             else:
                 e, txt = rng.choice(PRINT_EXPRS)
                 lines.append(mk_line(cat(T("@print"), "r", e), ["dir", "print", ["o"], txt]))
+        elif k == "mlassert":
+            lit, _shown, nl = rng.choice(ML_LITERALS)
+            ln = mk_line(T("@assert", "r", lit, "o", "!=", "o", "''"), ["dir", "assert", ["b", True], ""])
+            ln["nl"] = nl
+            lines.append(ln)
+        elif k == "mlconst":
+            # an attribute statement (committed lazily) that spans several physical lines
+            lit, _shown, nl = rng.choice(ML_LITERALS)
+            name = cnames.pop()
+            ln = mk_line(T("bool", "r", name, "o", "=", "o", lit, "o", "!=", "o", "''"), ["attr", "const", name, "bool", "true"])
+            ln["nl"] = nl
+            lines.append(ln)
         elif k == "assert":
             if rng.random() < 0.3 and not union and fixed:
                 lines.append(mk_line(T("@assert", "r", "_offset_", "o", "==", "o", "_offset_"), ["dir", "assert", ["b", True], ""], offs=True))
@@ -773,9 +899,16 @@ def decorate(rng, stmts: list, density: float) -> list:
     return out
 
 
-def gen_deco(rng, n: int) -> dict:
-    return {"seed": rng.randrange(1 << 30), "ws": rng.choice(["min", "wild", "wild"]), "eol": rng.choice(["lf", "lf", "crlf", "mixed"]),
+def gen_deco(rng, n: int, prop: str = "C03") -> dict:
+    deco = {"seed": rng.randrange(1 << 30), "ws": rng.choice(["min", "wild", "wild"]), "eol": rng.choice(["lf", "lf", "crlf", "mixed"]),
             "final_nl": [rng.random() < 0.5 for _ in range(n)], "route": rng.choice(["file", "file", "raw"])}
+    if prop == "C17" and rng.random() < 0.4:
+        # line attribution under every newline convention the library accepts: bare CR (and a mix of all three) is accepted because
+        # files are read in universal-newlines mode; the grammar itself (route "raw") knows only LF and CR LF
+        deco["eol"] = rng.choice(["crlf", "crlf", "mixed", "cr", "mixed3", "mixed3"])
+        if deco["eol"] in ("cr", "mixed3"):
+            deco["route"] = "file"
+    return deco
 
 
 def gen_namespace(rng, max_defs: int = 4, prop: str = "C03") -> dict:
@@ -796,7 +929,7 @@ def gen_namespace(rng, max_defs: int = 4, prop: str = "C03") -> dict:
         deprecated.append(all(deprecated[r] for r in referrers[i]) and rng.random() < (0.5 if referrers[i] else 0.2))
     bits: typing.Dict[int, int] = {}
     density = rng.choice([0.0, 0.3, 0.6, 0.9])
-    multiline = prop == "C17" and rng.random() < 0.12
+    multiline = prop == "C17" and rng.random() < 0.18
     for i in reversed(range(n)):
         ctx = {"defs": defs, "me": i, "bits": bits, "consts": {}, "multiline": multiline}
         deps = list(edges[i])
@@ -812,7 +945,7 @@ def gen_namespace(rng, max_defs: int = 4, prop: str = "C03") -> dict:
         defs[i]["lines"] = decorate(rng, stmts, density)
         defs[i]["kind"] = "service" if service[i] else "message"
         defs[i]["deprecated"] = deprecated[i]
-    case = {"mode": rng.choice(["ns", "ns", "files"]), "defs": defs, "deco": gen_deco(rng, n), "alt": None}
+    case = {"mode": rng.choice(["ns", "ns", "files"]), "defs": defs, "deco": gen_deco(rng, n, prop), "alt": None}
     if prop == "C17":
         # fixed port-IDs (file name prefix) inside the regulated range of the vendor root namespace `ns`, both range ends included
         taken: set = set()
@@ -831,13 +964,13 @@ PORT_MAX = {"message": 8191, "service": 511}
 MAX_NAME = 255  # longest full name (of a service: of its `.Request` / `.Response` parts)
 
 
-def gen_alt(rng, case: dict) -> dict:
+def gen_alt(rng, case: dict, prop: str = "C03") -> dict:
     n = len(case["defs"])
     ins = []
     for _ in range(rng.choice([0, 1, 2, 4])):
         di = rng.randrange(n)
         ins.append([di, rng.randint(0, len(case["defs"][di]["lines"])), stray_line(rng)])
-    return {"deco": gen_deco(rng, n), "inserts": ins}
+    return {"deco": gen_deco(rng, n, prop), "inserts": ins}
 
 
 # ------------------------------------------------------------------------------------------------- fault injection (C17)
@@ -912,6 +1045,18 @@ COMMIT_FAULTS = [  # raised by the Field/Constant constructor, i.e. when the que
     (T("uint8", "r", "ZQ", "o", "=", "o", "{", "o", "1", "o", "}"), ["attr", "const", "ZQ", "saturated uint8", "{1}"], "bad-constant"),
     (T("uint8", "o", "[", "o", "2", "o", "]", "r", "ZQ", "o", "=", "o", "1"), ["attr", "const", "ZQ", "saturated uint8[2]", "1"], "bad-constant-type"),
 ]
+
+
+# Kept out of the generator (GENUINE DEFECTS of the unchanged pydsdl, reported to the coordinator):
+#   * a symbolic link that points to itself (or a longer loop) under a definition's file name, e.g. ns/Zeta.1.0.dsdl -> Zeta.1.0.dsdl:
+#     read_namespace / read_files let a bare RuntimeError("Symlink loop from ...") of Path.resolve() escape (no pydsdl error, no path);
+#   * a symbolic link under a definition's file name whose target lies outside the root namespace directory (kind "symdir": a link
+#     to a directory elsewhere; the same with a link to a regular file elsewhere): a bare ValueError("... is not in the subpath of
+#     ...") of Path.relative_to() escapes from read_namespace / read_files while the namespace is scanned;
+#   * a dangling symbolic link under a definition's file name is rejected when the namespace is scanned, with InvalidDefinitionError
+#     whose path is the (non-existent) link TARGET, not the file in the namespace; it fails before any definition is read, i.e.
+#     independently of targets / dependencies, so it does not belong to this family either.
+KEPT_OUT_UNLOADABLE = ["symdir", "symlink-loop", "dangling-symlink"]  # write_unloadable still knows "symdir" (replays)
 
 
 def schema_ranges(lines: list) -> typing.List[typing.Tuple[int, int]]:
@@ -1011,13 +1156,36 @@ def inject_fault(rng, case: dict, avoid: typing.Optional[set] = None) -> typing.
     kind = rng.choice(["syntax", "pre", "mid", "mid-dep", "undef", "directive", "dup-mode", "union-misplaced", "deprecated-misplaced",
                        "attr-after-extent", "dup-marker", "commit", "commit", "commit", "commit-composite-const", "union-offset", "dup-name", "union-arity",
                        "pad-in-union", "missing-mode", "extent-small", "extent-odd", "bad-aggregation", "deprecated-dep",
-                       "port-unregulated", "port-unregulated", "port-range", "type-name", "name-length"])
+                       "port-unregulated", "port-unregulated", "port-range", "type-name", "name-length",
+                       "multiline-fault", "unloadable", "unloadable"])
+    if kind == "unloadable":
+        # a file that cannot be loaded at all: as a target, and - mostly - as a dependency first reached through a reference
+        # (depth 1..3); kept out: see KEPT_OUT_UNLOADABLE
+        if deep and rng.random() < 0.75:
+            f = rng.choice(deepest) if rng.random() < 0.5 else rng.choice(deep)
+            if avoid is not None:
+                avoid.add(f)
+            d = defs[f]
+        elif not deep and rng.random() < 0.5:
+            return None
+        if d.get("dfault") or d.get("final_fault") or any(l.get("bad") for l in d["lines"]):
+            return None
+        d["unload"] = rng.choice(UNLOAD_KINDS)
+        d["dfault"] = UNLOADABLE
+        d["final_fault"] = True
+        return kind
     is_union = find_dir(lines, lo, hi, "union") is not None
     if kind == "syntax":
         lines.insert(anywhere, mk_line(copy.deepcopy(rng.choice(SYNTAX_FAULTS)), None, fault="syn", bad=["syntax", "stmt"]))
     elif kind == "pre":
         toks, s = rng.choice(PRE_FAULTS)
         lines.insert(anywhere, mk_line(copy.deepcopy(toks), list(s), fault="pre", bad=["bad-type", "stmt"]))
+    elif kind == "multiline-fault":
+        # the faulty statement itself spans several physical lines: it is reported at its first line
+        lit, _shown, nl = rng.choice(ML_LITERALS)
+        new = mk_line(T("@assert", "r", lit, "o", "==", "o", "''"), ["dir", "assert", ["b", False], ""], bad=["assert-false", "stmt"])
+        new["nl"] = nl
+        lines.insert(anywhere, new)
     elif kind == "mid":
         toks, s = rng.choice(MID_FAULTS)
         lines.insert(anywhere, mk_line(copy.deepcopy(toks), list(s), fault="mid", bad=["bad-expression-or-type", "stmt"]))
@@ -1256,7 +1424,7 @@ class TextSuite(common.Suite):
                             c["faults"].append(k)
                             break
                 if rng.random() < 0.3:
-                    c["alt"] = gen_alt(rng, c)
+                    c["alt"] = gen_alt(rng, c, prop)
             else:
                 if rng.random() < 0.7:
                     c["alt"] = gen_alt(rng, c)
@@ -1287,8 +1455,11 @@ class TextSuite(common.Suite):
             return {"res": "foreign:harness:" + type(ex).__name__, "soft_msg": str(ex)[:300]}
 
     def model_case(self, case):
+        # a definition whose file cannot be loaded: the read fails before the first line is seen, with the definition's own path and
+        # no line - for the reader model that is a definition without lines whose completion fails
         return {"id": case.get("id"), "targets": target_order(case),
-                "defs": [{"final_fault": bool(d.get("final_fault")), "lines": render_def(d, case["deco"], i)[1]} for i, d in enumerate(case["defs"])]}
+                "defs": [{"final_fault": True, "lines": []} if d.get("unload") else
+                         {"final_fault": bool(d.get("final_fault")), "lines": render_def(d, case["deco"], i)[1]} for i, d in enumerate(case["defs"])]}
 
     def compare(self, case, impl, model, prop):
         a = {k: impl.get(k) for k in KEYS if k in impl}
@@ -1297,6 +1468,9 @@ class TextSuite(common.Suite):
             return "model driver error: %s" % model["err"]
         if "types" in b:
             b["types"] = sorted(b["types"], key=lambda x: x[0])
+        f = b.get("file")
+        if b.get("res") == "invalid" and isinstance(f, int) and f < len(case["defs"]) and case["defs"][f].get("unload"):
+            b["res"] = "internal"  # DSDLDefinition.read wraps whatever loading the text raises (catch-all) into InternalError with its own path
         if a == b:
             return None
         for k in KEYS:
@@ -1397,6 +1571,16 @@ class TextSuite(common.Suite):
         yield "route:" + str(case["deco"].get("route"))
         for k in case.get("faults") or []:
             yield "fault:" + k
+        for di, d in enumerate(case["defs"]):
+            if d.get("unload"):
+                dep = reach_depth(case, di)
+                yield "unloadable:" + d["unload"]
+                yield "unloadable-depth:%s" % ("unreached" if dep is None else dep)
+            else:
+                nls = [l["nl"] for l in d["lines"] if l.get("nl")]
+                if nls:
+                    later = any(l.get("bad") or (l.get("s") and l["s"][:2] == ["dir", "print"]) for l in d["lines"][next(i for i, l in enumerate(d["lines"]) if l.get("nl")) + 1:])
+                    yield "multiline-literals:%s:%s%s" % (eol_style(case["deco"]), min(3, sum(nls)), ":fault-or-print-behind" if later else "")
         for d in case["defs"]:
             if d.get("port") is not None:
                 yield "fixed-port:" + ("faulty" if str(d.get("dfault") or "").find("port") >= 0 else "regulated")
